@@ -2652,10 +2652,9 @@ class sptensor:
             # Find where their nonzeros intersect
             # TODO consider if intersect rows should return 3 args so we don't have to
             #  call it twice
-            nzsubsIdx = tt_intersect_rows(self.subs, other.subs)
-            nzsubs = self.subs[nzsubsIdx]
-            iother = tt_intersect_rows(other.subs, self.subs)
-            equal_subs = self.vals[nzsubsIdx] == other.vals[iother]
+            common, iother = tt_ismember_rows(self.subs, other.subs)
+            nzsubs = self.subs[common]
+            equal_subs = self.vals[common] == other.vals[iother[common]]
             znzsubs = np.empty(shape=(0, other.ndims), dtype=int)
             if equal_subs.size > 0:
                 znzsubs = nzsubs[(equal_subs).transpose()[0], :]
